@@ -117,11 +117,30 @@ def run(ctx):
         for k, (i, j) in enumerate(zip(tx, rx)):
             if i == j:
                 tt[k, int(round(2 * d_el[i] / c / dt))] = 3.0 * rng.choice([-1, 1])
+        # stronger signals outside the front-wall echo, to be excluded by the time window the caller gives: the excitation
+        # breakthrough before the echoes, a later (back-wall) echo after them; each bound of the window is optional on its own
+        t_echo = 2 * d_el / c
+        t_before, t_after = float(t_echo.min() - 40 * dt), float(t_echo.max() + 40 * dt)
+        variant = ["none", "tmin", "tmax", "both"][_ % 4]
+        if variant in ("tmin", "both") and t_before > 30 * dt:
+            tt[:, int(rng.integers(1, int(t_before / dt) - 10))] = 9.0
+        if variant in ("tmax", "both"):
+            tt[:, int(rng.integers(int(t_after / dt) + 10, ns - 1))] = -9.0
+        kw_win = {"none": {}, "tmin": {"tmin": t_before}, "tmax": {"tmax": t_after}, "both": {"tmin": t_before, "tmax": t_after}}[variant]
+        if variant in ("tmin", "both") and t_before <= 30 * dt:
+            kw_win, variant = {}, "none"
+            tt[np.abs(tt) > 8] = 0.0
+        ctx.count("frontwall_window:" + variant)
         fr = fixtures.make_frame(tt, 0.0, dt, tx, rx, probe, None)
         couplant = arim.Material(c, density=1000.0, state_of_matter="liquid")
-        z, th, times = measurement.find_probe_loc_from_frontwall(fr, couplant)
+        try:
+            z, th, times = measurement.find_probe_loc_from_frontwall(fr, couplant, **kw_win)
+        except Exception as e:
+            ctx.violate(f"find_probe_loc_from_frontwall({sorted(kw_win)}) raised {type(e).__name__}: {str(e)[:80]}",
+                        {"op": "find_probe_loc_from_frontwall", "numel": numel, "theta": theta, "standoff": standoff, "window": kw_win}, {"kind": "frontwall"})
+            continue
         loc = fr.probe.locations.coords
-        cj = {"op": "find_probe_loc_from_frontwall", "numel": numel, "theta": theta, "standoff": standoff}
+        cj = {"op": "find_probe_loc_from_frontwall", "numel": numel, "theta": theta, "standoff": standoff, "window": kw_win}
         ctx.case(("e2e", numel, theta, standoff), True)
         # sampling of the echo time limits the accuracy to c dt / 2 per element
         if not (np.all(np.abs(-loc[:, 2] - d_el) <= 2 * c * dt) and abs(th - theta) <= 0.05 and abs(-z - standoff) <= 4 * c * dt):
